@@ -29,6 +29,8 @@ def region_jobs(tier):
         for dalpha in (0, 1):
             for src in (0, 1):
                 for mask in (0, 1, 2):
+                    if tier == "quick" and (src, mask) in ((1, 0), (0, 1)):
+                        continue   # quick: 16 of the 24 flag cases (every flag still occurs set and cleared)
                     name = "region.dclip%d.dalpha%d.src%d.mask%d" % (dclip, dalpha, src, mask)
                     js.append(Job(name, "C03/region.c",
                                   defines={"VC_DCLIP": dclip, "VC_DALPHA": dalpha, "VC_SRC": src, "VC_MASK": mask},
@@ -125,7 +127,16 @@ def jobs(tier):
 
 META = {
     "level": "proof",
-    "trusted_base": ["spec/spec_region.h: point membership / canonical form as written from the property text"],
-    "assumptions": [],
-    "not_covered": [],
+    "trusted_base": ["spec/spec_region.h: point membership / canonical form as written from the property text",
+                     "harness/C03/scene_spec.inc: the set S of the property statement, on the inputs, in long arithmetic"],
+    "assumptions": [
+        "pixman_op (band sweep) is asserted unreachable in every region/dispatch job (obligation pixman_op.unreachable), as is the multi-rectangle branch of clip_general_image: both hold for clips of <= 1 rectangle",
+        "the routines chosen by the lookup write only inside the rectangle they are handed: proved only for the routines under contract in C01/C02/C19 (surroundings)",
+    ],
+    "not_covered": [
+        "multi-rectangle clips (pixman_region32_translate/intersect -> pixman_op): C05/C07",
+        "alpha-map clip regions (translated by -alpha_origin in the code; outside the property statement)",
+        "pixman_compute_composite_region (16-bit API wrapper): region16 conversion is C05 conv.*",
+        "store frame for 1/4/24 bpp (C10 store_scanline.*), pixman_image_fill_boxes (C19 boxes.*), rasterize_edges clamps (C12), glyph compositing (C17)",
+    ],
 }
